@@ -3,9 +3,10 @@
    only).  `via' says through which door the real allocation is made: for the failable allocator
    "direct" (alloc_memory), "new" / "newarray" (operator new / new[] with the allocator installed);
    for the C interface the function name.  Consumption follows the ideal choice (all matching
-   designations), which does not change the set of call sequences. *)
+   designations), which does not change the set of call sequences.  `Ops' = the calls a configuration
+   explores (the C interface needs Fns # {} as well), so that one family of calls can be taken deeper. *)
 EXTENDS FailAlloc, Json
-CONSTANTS D, Vias, Fns
+CONSTANTS D, Vias, Fns, Ops
 VARIABLES h, done
 gvars == <<vars, h, done>>
 
@@ -13,15 +14,18 @@ Call(op, via, loc, n) == h' = Append(h, [op |-> op, via |-> via, loc |-> loc, n 
 
 GInit == Init /\ h = <<>> /\ done = FALSE
 GStep == /\ Len(h) < D /\ UNCHANGED done
-         /\ \/ \E n \in Ns : Len(pending) < MaxPending /\ FailNumber(n) /\ Call("failnum", "", 0, n)
-            \/ \E n \in Ns, x \in Locs : Len(pending) < MaxPending /\ FailAt(x, n) /\ Call("failat", "", x, n)
-            \/ \E x \in Locs, v \in Vias : Alloc(x, Matching(x)) /\ Call("alloc", v, x, 0)
-            \/ CheckDone /\ Call("checkdone", "", 0, 0)
-            \/ (pending # <<>> \/ count > 0) /\ Clear /\ Call("clear", "", 0, 0)
-            \/ \E n \in Countdowns \cup {-1} : Fns # {} /\ Countdown(n) /\ Call("countdown", "", 0, n)
-            \/ Fns # {} /\ ~oom /\ SetOOM /\ Call("setoom", "", 0, 0)
-            \/ Fns # {} /\ (oom \/ cd >= 0) /\ SetNotOOM /\ Call("setnotoom", "", 0, 0)
-            \/ \E f \in Fns, x \in Locs : CAlloc(f, x, Matching(x)) /\ Call("c", f, x, 0)
+         /\ \/ \E n \in Ns : "failnum" \in Ops /\ Len(pending) < MaxPending /\ FailNumber(n) /\ Call("failnum", "", 0, n)
+            \/ \E n \in Ns, x \in Locs : "failat" \in Ops /\ Len(pending) < MaxPending /\ FailAt(x, n) /\ Call("failat", "", x, n)
+            \/ \E x \in Locs, v \in Vias : "alloc" \in Ops /\ Alloc(x, Matching(x)) /\ Call("alloc", v, x, 0)
+            \/ "checkdone" \in Ops /\ CheckDone /\ Call("checkdone", "", 0, 0)
+            \/ "clear" \in Ops /\ (pending # <<>> \/ count > 0) /\ Clear /\ Call("clear", "", 0, 0)
+            \/ \E n \in Countdowns \cup {-1} : "countdown" \in Ops /\ Fns # {} /\ Countdown(n) /\ Call("countdown", "", 0, n)
+            \/ "setoom" \in Ops /\ Fns # {} /\ ~oom /\ SetOOM /\ Call("setoom", "", 0, 0)
+            \/ "setnotoom" \in Ops /\ Fns # {} /\ (oom \/ cd >= 0) /\ SetNotOOM /\ Call("setnotoom", "", 0, 0)
+            \/ \E f \in Fns, x \in Locs : "c" \in Ops /\ CAlloc(f, x, Matching(x)) /\ Call("c", f, x, 0)
+            \* the statistics calls (a read not twice in a row)
+            \/ "countreset" \in Ops /\ Fns # {} /\ CountReset /\ Call("countreset", "", 0, 0)
+            \/ "getcount" \in Ops /\ Fns # {} /\ last.op # "getcount" /\ GetCount /\ Call("getcount", "", 0, 0)
 \* a single deterministic closing step, so that simulation prints each sampled behaviour once
 GEnd == Len(h) = D /\ ~done /\ done' = TRUE /\ UNCHANGED <<vars, h>>
 GNext == GStep \/ GEnd
